@@ -822,7 +822,9 @@ class View(object):
             if tok != 'ctx':
                 return kind, tok          # a Response: render side is skipped entirely
             if not has_render:
-                return ('ret', 'ctx')     # no renderer: the context itself comes back (-> 500 by C08)
+                # no renderer: the render middlewares run around the identity render; unless one of them answers, the
+                # context itself comes back (-> "expected Response", a 500 by C08)
+                return run_mw_chain(ch['render'], lambda: ('ret', 'ctx'))
             return run_mw_chain(ch['render'], render)
         outcome = run_mw_chain(ch['request'], inner)
         return ev, outcome
